@@ -32,7 +32,9 @@ def run(tier, seed):
         os.remove(tmp)
     if r.violated != "temporal" and "Progress" not in (r.violated or ""):
         raise common.ToolError("vacuity guard: Progress is not violated by the weakened spec (ignore_future_newview)")
-    runs = b.run_random(PROP, seed, tier, suffix=True) + b.run_scenarios(PROP)
+    # every prefix is continued twice: as it is, and after one more timer expiry everywhere whose messages are lost
+    runs = b.run_random(PROP, seed, tier, suffix=True, suffix_mode=1) + b.run_random(PROP, seed, tier, suffix=True, suffix_mode=2, tag="_lossy") \
+        + b.run_scenarios(PROP)
     cnt = b.counters(runs)
     prog = [run["report"]["samples"][0].get("progress") for run in runs if run["report"]["samples"]]
     oks = [p for p in prog if p and p.get("ok")]
